@@ -762,6 +762,67 @@ func natLayers(tier string) []Layer {
 			},
 		})
 	}
+	// N11: dense operands (fixed xorshift sequences) for the basic division (divisors of 2..99 words), for
+	// mul and for sqr around the algorithm thresholds: the structured operands of N1–N4 make every
+	// quotient-digit estimate exact or nearly so
+	{
+		streams := 8
+		if thorough {
+			streams = 64
+		}
+		dense := func(n int, seed uint64) []uint64 {
+			st := seed*6364136223846793005 + 1442695040888963407
+			v := make([]uint64, n)
+			for j := range v {
+				st ^= st >> 12
+				st ^= st << 25
+				st ^= st >> 27
+				v[j] = (st * 2685821657736338717) % BW
+			}
+			if v[n-1] == 0 {
+				v[n-1] = 1
+			}
+			return v
+		}
+		layers = append(layers, Layer{
+			Name:   "N11-dense-operands",
+			Units:  98,
+			Bounds: fmt.Sprintf("n = 2..99: u / v for len(v) = n and len(u) in {n+1, n+2, n+n/2, 2n, 2n+1, 3n}; x·y for (n, n), (n, n/2+1), (2n+1, n); x² for n: %d fixed word sequences each (xorshift64*, words mod 10^19, also with a top word ≥ 9·10^18 and = 10^18); Karatsuba thresholds {default, 4, 7}; against the schoolbook reference", streams),
+			Run: func(c *Ctx, u int) {
+				installAdvPool(4096)
+				ok, obs, oks := decimal.VerifThresholds()
+				defer decimal.VerifSetThresholds(ok, obs, oks)
+				n := u + 2
+				for _, k := range []int{ok, 4, 7} {
+					decimal.VerifSetThresholds(k, obs, oks)
+					thr := thrAssign{k, obs, oks}.String()
+					for i := 0; i < streams; i++ {
+						if c.Done() {
+							return
+						}
+						seed := uint64(n)*1000 + uint64(i)
+						v := dense(n, seed)
+						switch i % 4 {
+						case 1:
+							v[n-1] = 9*(BW/10) + v[n-1]%(BW/10)
+						case 2:
+							v[n-1] = BW / 10
+						}
+						for mi, m := range []int{n + 1, n + 2, n + n/2, 2 * n, 2*n + 1, 3 * n} {
+							if k != ok && mi%2 == 1 {
+								continue
+							}
+							natDivCase(c, dense(m, seed*31+uint64(m)), v, fmt.Sprintf("dense n=%d m=%d stream=%d k=%d", n, m, i, k))
+						}
+						natMulCase(c, dense(n, seed+7), v, thr, i%6)
+						natMulCase(c, v, dense(n/2+1, seed+9), thr, (i+1)%6)
+						natMulCase(c, dense(2*n+1, seed+11), v, thr, (i+2)%6)
+						natSqrCase(c, v, thr)
+					}
+				}
+			},
+		})
+	}
 	// N7: recursive division with extreme partial remainders at a block boundary:
 	// u = ((qhi·b^B + blk)·v + rem)·b^m + low, B = len(v)/2 (the recursion's block size),
 	// so that after the block `blk` the running remainder is rem (v−1: every estimate of
